@@ -73,6 +73,8 @@ ReplyViol(e, fx) ==
                    (IF e.res = "ok" THEN {"C08/frontend/truncated-reply-accepted/" \o e.op \o "/at=" \o where}
                     ELSE IF e.hang THEN {"C08/frontend/blocked-on-truncated-reply/" \o e.op \o "/at=" \o where}
                     ELSE {})
+         ELSE IF e.peer = "gone" THEN (IF e.hang THEN {"C03/frontend/hang-although-the-peer-is-gone/" \o tag}
+                                       ELSE IF e.res = "ok" /\ fx.await # "none" THEN {"C03/frontend/success-although-the-peer-was-gone/" \o tag} ELSE {})
          ELSE IF fx.await = "none" \/ e.peer \notin JudgedMutations THEN {}
               ELSE IF e.peer \in {"nack", "nack_hi"} THEN (IF e.res = "ok" THEN {"C03/frontend/nack-reported-as-success/" \o e.op \o "/" \o e.cls \o (IF e.peer = "nack_hi" THEN "/status-with-zero-low-half" ELSE "")} ELSE {})
               ELSE IF e.res = "ok" THEN {"C06/frontend/accepted-bad-reply/" \o tag}
@@ -82,7 +84,10 @@ ReplyViol(e, fx) ==
 \* an answer the peer owed by the protocol was left unread by the call: the peers are out of step
 StrayViol(e) ==
     IF e.peer = "auto" /\ e.stray_in > 0 /\ ~e.hang
-    THEN {"C03/frontend/answer-not-awaited/" \o e.op \o (IF e.op = "set_log_base" THEN "/" \o LogBaseForm(fe, e.cls) \o "-form" ELSE "")}
+    THEN {"C03/frontend/answer-not-awaited/" \o e.op \o (IF e.op = "set_log_base" THEN "/" \o LogBaseForm(fe, e.cls) \o "-form" ELSE ""),
+          \* in terms of C02: the call returned although the acknowledgement it had asked for had not arrived -- nothing says
+          \* the handler had been invoked by then
+          "C02/frontend/call-returned-without-awaiting-its-acknowledgement/" \o e.op \o (IF e.op = "set_log_base" THEN "/" \o LogBaseForm(fe, e.cls) \o "-form" ELSE "")}
     ELSE {}
 
 TVInit == /\ fe = FeInit /\ l = 1 /\ viol = {} /\ judged = 0 /\ cur = -1 /\ desync = FALSE
